@@ -1,5 +1,8 @@
 import NomtModel.Store.ImgCheck
 import NomtModel.Store.ImgLemmas
+import NomtModel.Store.PageIdLemmas
+import NomtModel.Store.LeafRt
+import NomtModel.Store.BranchRt
 import NomtModel.Store.ConstantsFormats
 import NomtModel.Store.ConstantsAlloc
 /-!
@@ -69,6 +72,98 @@ theorem T16_lookup (img : Image) (st : Stats) (h : wfImage img = .ok st) (k : Na
 
 /-- a concrete manifest round trip, evaluated by the kernel -/
 example : decodeMeta (encodeMeta sampleMeta) = some sampleMeta := by decide
+
+/-! ## page ids -/
+
+/-- T16.rt (page id): `PageId::encode` as implemented (for every child index `c`: `word += c + 1;
+word <<= 6`, 256-bit word) followed by the Lean label decoder of the `ht` monitor gives the path
+back, for every path of child indices `< 64` of depth `≤ MAX_PAGE_DEPTH = 42` whose encoding fits
+the word — which is every path of depth `≤ 41` -/
+theorem T16_rt_page_id (p : List Nat) (hc : ∀ c ∈ p, c < 64) :
+    (p.length ≤ MAX_PAGE_DEPTH → 64 * pageIdNum p < 2 ^ 256 → decodePageId (encodePageId p) = some p) ∧
+    (p.length ≤ 41 → decodePageId (encodePageId p) = some p) :=
+  ⟨fun hl hfit => decode_encode_pageId p hc hl hfit,
+   fun hl => decode_encode_pageId p hc (by unfold MAX_PAGE_DEPTH; omega) (encode_fits_of_depth_le_41 p hc hl)⟩
+
+/-- T16.rt (page id, converse): a label the monitor accepts IS the encoding of the decoded path,
+whose depth is `≤ 42` and whose child indices are `< 64`; so two accepted labels are equal iff their
+page ids are -/
+theorem T16_page_id_decode_sound (label : Nat) (p : List Nat) (h : decodePageId label = some p) :
+    encodePageId p = label ∧ p.length ≤ MAX_PAGE_DEPTH ∧ ∀ c ∈ p, c < 64 :=
+  decodePageId_sound label p h
+
+/-- depth 42: the deepest left-most page still fits the word and round-trips; but a depth-42 path
+whose first child index `c₁` has `(c₁ + 1) % 16 = 0` loses exactly its first summand in the 256-bit
+word of `encode` (`(c₁+1)·2^252·… ≡ 0`), so its label IS the label of the depth-41 page obtained by
+dropping the first child — e.g. the deepest right-most page gets the label of `[63; 41]`.  The
+hypothesis `64 * pageIdNum p < 2^256` of T16.rt is therefore needed; such pages are never stored
+(`T16_const_last_level_elided`), so no stored label is ambiguous. -/
+example : decodePageId (encodePageId (List.replicate 42 0)) = some (List.replicate 42 0) ∧
+    encodePageId (List.replicate 42 63) = encodePageId (List.replicate 41 63) ∧
+    encodePageId (15 :: List.replicate 41 7) = encodePageId (List.replicate 41 7) ∧
+    decodePageId (encodePageId [0]) = some [0] ∧ encodePageId [0] = 64 ∧ decodePageId 1 = none := by decide
+
+/-! ## leaf pages -/
+
+/-- T16.rt (leaf page): the mirror of `LeafBuilder` (`new(n, total)`, `push_cell` × n, `finish`:
+`n` u16 | (key ‖ u16 (offset | overflow bit)) × n | untouched bytes `pad` | cells, the first cell at
+`PAGE_SIZE − total`) followed by `decodeLeaf` gives the entries back — keys, overflow flags and cell
+bytes — for ANY content `pad` of the gap, under the decidable guard `leafOK`: at least one entry,
+32-byte keys, inline cells `≤ MAX_LEAF_VALUE_SIZE`, overflow cells `8 + 32 + 4k` bytes with
+`1 ≤ k ≤ 15`, and header + pointers + gap + cells = one page -/
+theorem T16_rt_leaf (es : List LeafEntry) (pad : List UInt8) (hok : leafOK es pad = true) :
+    (encodeLeaf es pad).size = PAGE ∧ decodeLeaf (encodeLeaf es pad) = .ok es :=
+  ⟨size_encodeLeaf es pad hok, leaf_rt es pad hok⟩
+
+/-- an inline value of 3 bytes, an overflow cell with one page number, an empty value; gap of
+`4096 − 2 − 3·34 − 47` bytes of `0xAA` -/
+def sampleLeaf : List LeafEntry :=
+  [⟨(List.replicate 32 1).toByteArray, false, [7, 8, 9].toByteArray⟩,
+   ⟨(List.replicate 32 2).toByteArray, true, (List.replicate 44 5).toByteArray⟩,
+   ⟨(List.replicate 32 3).toByteArray, false, ByteArray.empty⟩]
+example : leafOK sampleLeaf (List.replicate 3945 0xAA) = true := by decide +kernel
+example : decodeLeaf (encodeLeaf sampleLeaf (List.replicate 3945 0xAA)) = .ok sampleLeaf :=
+  (T16_rt_leaf _ _ (by decide +kernel)).2
+/-- the guard is needed: an inline value longer than `MAX_LEAF_VALUE_SIZE` is refused -/
+example : leafOK [⟨(List.replicate 32 1).toByteArray, false, (List.replicate 1333 0).toByteArray⟩]
+    (List.replicate 2727 0) = false := by decide +kernel
+
+/-! ## branch pages -/
+
+/-- T16.rt (branch page, with prefix compression): the mirror of `set_bbn_pn` +
+`BranchNodeBuilder::new(n, prefix_compressed, prefix_len)` + `push(key, separator_len, pn)` × n
+(`bbn_pn | n | prefix_compressed | prefix_len | cells u16[n] | Msb0 bit vector: the first
+`prefix_len` bits of the first key, then for separator `i` the bits `[prefix_len, separator_len)` of
+its key if `i < prefix_compressed` (nothing if `separator_len ≤ prefix_len`) and the bits
+`[0, separator_len)` otherwise | whatever bits the page held | node pointers u32[n]`) followed by
+`decodeBranch` returns the header values and, for every separator, **the key itself** (as a 256-bit
+number) with its node pointer — under the decidable guard `branchOK`: `n ≥ 1`, `bbn_pn, pn < 2^32`,
+`prefix_compressed ≤ n`, `prefix_len ≤ 256`, every key `< 2^256` with only zero bits after
+`separator_len ≤ 256`, the first `prefix_compressed` keys agree with the first key on the first
+`prefix_len` bits, and cells + bits + node pointers fill the page exactly -/
+theorem T16_rt_branch (x : BranchIn) (hok : branchOK x = true) :
+    (encodeBranch x).size = PAGE ∧
+    decodeBranch (encodeBranch x) = .ok
+      { bbnPn := x.bbnPn, prefixLen := x.pl, prefixCompressed := x.pc,
+        seps := x.items.map (fun it => (it.key, it.pn)) } :=
+  ⟨size_encodeBranch x (branchOK_facts hok), branch_rt x hok⟩
+
+/-- prefix `1010`, two compressed separators — `101` (shorter than the prefix: nothing stored) and
+`101011` (stores `11`) — and an uncompressed one `1111`; the rest of the bit vector is ones -/
+def sampleBranch : BranchIn :=
+  { bbnPn := 7, pc := 2, pl := 4,
+    items := [⟨0xA0 * 2 ^ 248, 3, 11⟩, ⟨0xAC * 2 ^ 248, 6, 12⟩, ⟨0xF0 * 2 ^ 248, 4, 13⟩],
+    fill := List.replicate 32534 true }
+example : branchOK sampleBranch = true := by decide +kernel
+example : decodeBranch (encodeBranch sampleBranch) = .ok
+    { bbnPn := 7, prefixLen := 4, prefixCompressed := 2,
+      seps := [(0xA0 * 2 ^ 248, 11), (0xAC * 2 ^ 248, 12), (0xF0 * 2 ^ 248, 13)] } :=
+  (T16_rt_branch sampleBranch (by decide +kernel)).2
+/-- the guard is needed: a compressed key that does not start with the prefix is refused, and so is a
+key with a one bit after its separator length -/
+example : branchOK { sampleBranch with items := [⟨0xA0 * 2 ^ 248, 3, 11⟩, ⟨0xBC * 2 ^ 248, 6, 12⟩, ⟨0xF0 * 2 ^ 248, 4, 13⟩] } = false
+    ∧ branchOK { sampleBranch with items := [⟨0xA0 * 2 ^ 248, 2, 11⟩, ⟨0xAC * 2 ^ 248, 6, 12⟩, ⟨0xF0 * 2 ^ 248, 4, 13⟩] } = false := by
+  decide +kernel
 
 /-! ## the decoders' constants are the constants of the Rust source
 
